@@ -183,6 +183,14 @@ func runHistory(ops []resOp, proto string, capN int) ([]resObs, error) {
 					return nil, err
 				}
 				authSM2, authRSA = rg.sm2, rg.rsa
+			} else if capN == 2 {
+				// in the histories with a cache of two entries the client's (trusted) certificate comes as a chain: leaf and
+				// an intermediate CA under the root the server trusts - the ticket then carries both
+				rg, err := loadRogue()
+				if err != nil {
+					return nil, err
+				}
+				authSM2, authRSA = rg.chainSM2, rg.chainRSA
 			}
 			build := func() (sc, cc *gmtls.Config, err error) {
 				if proto == "auto_gm" || proto == "auto_tls" {
